@@ -391,6 +391,10 @@ func Generate(r *Rng, p GenProfile) *History {
 			p.Reports,   // 5 usage report
 			p.Negative,  // 6 negative
 			p.Dups,      // 7 retransmission of an earlier request
+			0,           // 8 buffered downlink packet notification
+		}
+		if p.DLDR && len(live) > 0 {
+			w[8] = 3
 		}
 		if p.OneSession && len(g.sess) > 0 {
 			w[2] = 0
@@ -542,6 +546,9 @@ func Generate(r *Rng, p GenProfile) *History {
 				o.Answer = "ignore"
 			}
 			add(o)
+		case 8:
+			s := live[r.Intn(len(live))]
+			add(Op{K: "dldr", Node: s.node, NodeID: -1, Sess: s.h, PDR: uint16(r.Range(1, 3)), Act: []uint16{4, 0xc, 0xc, 8}[r.Intn(4)], PayLen: r.Range(1, 60), Answer: "accept"})
 		case 7:
 			var cand []int
 			for j, o := range g.h.Ops {
